@@ -249,7 +249,7 @@ func (r *Runner) RunOne(j *Job) *Result {
 	if err != nil {
 		if ee, ok := err.(*exec.ExitError); ok {
 			res.ExitCode = ee.ExitCode()
-			if res.ExitCode == 124 || res.ExitCode == 137 {
+			if res.ExitCode == 124 || (res.ExitCode == 137 && wall >= float64(j.Timeout)-1) {
 				res.TimedOut = true
 			}
 		} else {
